@@ -134,13 +134,15 @@ def select_calls():
         "limit": lambda q, Q: q.limit(5),
         "offset": lambda q, Q: q.offset(2),
         "with": lambda q, Q: q.with_(sub(Q), "c1"),
+        # a second CTE whose body is a set operation (the library's notion of a recursive CTE), defined after a plain one
+        "with-recursive": lambda q, Q: q.with_(Q.from_(u).select(u.id).union_all(Q.from_(u).select(u.id + 1).where(u.id < 5)), "r1"),
         "force_index": lambda q, Q: q.force_index("ix"),
         "for_update": lambda q, Q: q.for_update(),
         "into": lambda q, Q: q.into(r["Table"]("dst")),
     }
 
 
-SQLITE_OK = {"select", "distinct", "join", "where", "groupby", "having", "orderby", "limit", "offset", "with"}
+SQLITE_OK = {"select", "distinct", "join", "where", "groupby", "having", "orderby", "limit", "offset", "with", "with-recursive"}
 
 
 def update_calls():
@@ -230,7 +232,7 @@ KINDS = {
     "drop": (lambda Q: Q.drop_table(tabs()[0]), lambda: {"if_exists": lambda q, Q: q.if_exists()}),
 }
 # calls that address the same clause (their relative order is part of the meaning)
-SAME_CLAUSE = [{"set", "set2"}, {"insert", "insert2", "select"}, {"columns", "columns2", "as_select"}, {"columns", "columns-id", "columns-a"},
+SAME_CLAUSE = [{"with", "with-recursive"}, {"set", "set2"}, {"insert", "insert2", "select"}, {"columns", "columns2", "as_select"}, {"columns", "columns-id", "columns-a"},
                {"on_conflict", "do_update", "do_nothing", "where"}, {"limit", "offset"} - {"offset"}]
 # completeness: which call sets make the builder complete
 def complete(kind, calls):
@@ -470,6 +472,13 @@ def wellformed(kind, d, calls, sql, mon):
         if tk.kind == "IDENT" and tk.value == "None" and i_ + 1 < len(toks) and toks[i_ + 1].text == ".":
             mon.violation("%s:none-as-qualifier:%s" % (kind, fam), "a column is qualified with the name \"None\" (a missing alias written out): %r (calls %s)" % (sql[:240], calls))
             return True
+    for i_, tk in enumerate(toks):
+        # WITH [RECURSIVE] name AS (..) [, name AS (..)]*: the keyword belongs to the clause, not to one of its members
+        if tk.kind == "WORD" and tk.value == "RECURSIVE":
+            mon.count("recursive_keywords_checked")
+            if not (i_ > 0 and toks[i_ - 1].kind == "WORD" and toks[i_ - 1].value == "WITH"):
+                mon.violation("%s:recursive-not-after-with:%s" % (kind, fam), "RECURSIVE does not directly follow WITH: %r (calls %s)" % (sql[:240], calls))
+                return True
     b = balanced(toks)
     if b:
         mon.violation("%s:unbalanced:%s" % (kind, fam), "%s in %r" % (b, sql[:200]))
@@ -608,7 +617,9 @@ def run_subset(case, mon):
     try:
         again = render(q, d)
         mon.count("second_renders")
-        if again != sql and wellformed(kind, d, calls + ["<second render>"], again, mon):
+        if again != sql:
+            # the same calls, the same builder, another text
+            mon.violation("%s:second-render-differs:%s" % (kind, fam), "the builder (calls %s) renders %r first and %r the second time" % (calls, sql[:220], again[:220]))
             return
         q2 = getattr(q, "if_not_exists", None) if kind == "create" else None
         if callable(q2):
